@@ -112,7 +112,8 @@ def run(run):
     run.coverage.update({
         "evaluations": stats.get("drain", 0),
         "distinct_nontrivial": len(shapes),
-        "rule": "grid drain in {20,60,150,300,1000} ms x triggers {Stop, context cancel, Reload with a changed configuration} x request "
+        "rule": "grid drain in {20,60,150,300,1000} ms x triggers {Stop, context cancel, Reload with a changed configuration, the DEADLINE "
+                "of Run's context expiring with requests in flight, Stop 40 ms before such a deadline} x request "
                 "mixes (idle, one short, one long, several short, boundary band, mixed k=4, reload changing DrainTimeout) + PRNG "
                 "cases (drain 20-300 ms, k<=4, d_i << / ~ / >> drain); distinct = distinct (trigger, drain, request classes), measured",
         "samples": samples,
